@@ -11,7 +11,9 @@
 //!   mods: `sum` checksum bytes corrupted · `data` data byte flipped (checksum stale) · `fix` data zeroed AND checksum
 //!         recomputed (valid checksum, wrong content) · `term<k>` · `lead<k>` · `seq<k>` · `tot<k>` · `nometa` ·
 //!         `meta` (real metadata attached) · `nolast` (metadata without last_included) · `old` (metadata label = the
-//!         follower's existing old snapshot 1-1)
+//!         follower's existing old snapshot 1-1) · `empty` (no payload, correct 4-byte CRC of the empty string) · `lost`
+//!         (no payload AND no checksum bytes) · `sumlen<k>` (checksum field of k bytes agreeing with the CRC as far as
+//!         it can: low-order bytes / zero-extended)
 //! output: `res=<ok|err:class> acks=<seq/status/next,...> sm=<k=v,...> la=<i.t> dir=<entries>`
 //!   dir entries (sorted): `final:<i>-<t>=<A|OLD|cat|other>` (A = the leader's archive, cat = concatenation of the
 //!   data of all stream items in order), `part` (temp assembly file), `other:<name>`.
@@ -136,7 +138,7 @@ fn classify(msg: &str) -> &'static str {
         ("Out-of-order chunk", "order"), ("Leader changed", "leader"), ("Checksum validation failed", "checksum"),
         ("Missing metadata", "nometa"), ("Received chunks(", "count"), ("No chunk received", "timeout"),
         ("snapshot_metadata is empty", "nolast"), ("Failed to unpack", "archive"), ("Invalid", "archive"),
-        ("compressed", "archive"), ("gzip", "archive"),
+        ("compressed", "archive"), ("gzip", "archive"), ("TooSmall", "archive"), ("InvalidGzipHeader", "archive"), ("too small", "archive"),
     ];
     for (needle, t) in table { if msg.contains(needle) { return t; } }
     "other"
@@ -177,6 +179,19 @@ async fn run_stream(n: usize, items: &[&str]) -> String {
                 if !d.is_empty() { d[0] = parts[i][0] ^ 0xff; }
                 let mut s = crc(&d).to_vec(); s[0] ^= 0xff;
                 c.chunk_checksum = Bytes::from(s); c.data = Bytes::from(d);
+            }
+            // payload lost, checksum = CRC32 of the empty string (a correct 4-byte checksum)
+            else if m == "empty" { c.data = Bytes::new(); c.chunk_checksum = crc(&[]); }
+            // payload AND checksum lost (CRC32("") = 0 and an empty field decodes to 0 — must still not validate)
+            else if m == "lost" { c.data = Bytes::new(); c.chunk_checksum = Bytes::new(); }
+            // checksum field of k bytes that agrees with the payload's CRC as far as it can: k < 4 → its low-order
+            // k bytes, k > 4 → the CRC zero-extended on the left (same big-endian integer)
+            else if let Some(k) = m.strip_prefix("sumlen") {
+                let Ok(k) = k.parse::<usize>() else { return "bad-case".into() };
+                if k > 64 { return "bad-case".into(); }
+                let good = crc(&c.data).to_vec();
+                let s: Vec<u8> = if k <= 4 { good[4 - k..].to_vec() } else { let mut z = vec![0u8; k - 4]; z.extend_from_slice(&good); z };
+                c.chunk_checksum = Bytes::from(s);
             }
             else if m == "fix" { let d = vec![0u8; c.data.len()]; c.chunk_checksum = crc(&d); c.data = Bytes::from(d); }
             else if m == "nometa" { c.metadata = None; }
@@ -275,7 +290,8 @@ fn generate(r: &mut Rng, count: usize, tier: &str) -> Vec<String> {
         "n=1|0".to_string(), "n=3|0;1;2".to_string(), "n=3|".to_string(), "n=2|0;hold".to_string(),
         "loader|1".to_string(), "loader|3".to_string(), "loader|7".to_string(),
     ];
-    let mods = ["sum", "data", "fix", "term1", "term3", "lead2", "seq0", "seq1", "seq2", "seq9", "tot0", "tot1", "tot2", "tot3", "tot9",
+    let sum_mods = ["lost", "empty", "sumlen0", "sumlen1", "sumlen3", "sumlen5", "sumlen8", "empty+sumlen0", "empty+sumlen8", "sum", "data"];
+    let mods = ["lost", "empty", "sumlen0", "sumlen1", "sumlen3", "sumlen5", "sumlen8", "sum", "data", "fix", "term1", "term3", "lead2", "seq0", "seq1", "seq2", "seq9", "tot0", "tot1", "tot2", "tot3", "tot9",
         "nometa", "meta", "nolast", "old"];
     for i in 0..count {
         let n = 1 + r.below(4) as usize;
@@ -294,10 +310,26 @@ fn generate(r: &mut Rng, count: usize, tier: &str) -> Vec<String> {
         }
         if r.chance(1, 12) { items.push("hold".into()); }
         out.push(format!("n={}|{}", n, items.join(";")));
+        if i % 6 == 0 {
+            // padded / substituted streams: the count check is satisfied by a chunk whose checksum FIELD is malformed
+            // (wrong length, or lost together with the payload) — complete archive announced one chunk longer and
+            // padded, or the last genuine chunk replaced
+            let n = 1 + r.below(3) as usize;
+            let m = *r.pick(&sum_mods);
+            let mut it: Vec<String> = (0..n).map(|i| i.to_string()).collect();
+            if r.chance(1, 2) {
+                it[0] = format!("0+tot{}", n + 1);
+                it.push(format!("{}+seq{}+{}", n - 1, n, m));
+            } else {
+                let last = it.len() - 1;
+                it[last] = format!("{}+{}", it[last], m);
+            }
+            out.push(format!("n={}|{}", n, it.join(";")));
+        }
     }
     if tier == "thorough" {
         // small scope: every stream of length <= 3 over the chunks of a 2-chunk snapshot, plain or with one header mod
-        let alpha = ["0", "1", "0+sum", "1+sum", "1+term9", "1+lead9", "0+nometa", "0+tot1", "0+tot3", "1+seq0", "0+seq1", "0+fix", "1+fix"];
+        let alpha = ["0", "1", "1+lost", "1+seq2+lost", "0+tot3", "1+sumlen8", "1+empty", "0+sum", "1+sum", "1+term9", "1+lead9", "0+nometa", "0+tot1", "0+tot3", "1+seq0", "0+seq1", "0+fix", "1+fix"];
         for a in alpha { out.push(format!("n=2|{a}")); for b in alpha { out.push(format!("n=2|{a};{b}")); for c in alpha { out.push(format!("n=2|{a};{b};{c}")); } } }
     }
     out
